@@ -307,6 +307,13 @@ func c07wRun(c c07wCase) error {
 		if side == "outbound" {
 			conn, far, count = w.outbound, w.remote, c.R
 		}
+		if c.Shard%2 == 0 {
+			// an operator's tool asks the same server with the translation by-pass header right before (its answer is not
+			// judged): what the peer cluster is told afterwards must not depend on it
+			if _, e := vfInvoke(conn, dc, &adminservice.DescribeClusterRequest{}, metadata.Pairs(common.RequestTranslationHeaderName, "false")); e != nil {
+				return fmt.Errorf("HARNESS: DescribeCluster (translation by-pass) via %s failed: %v", side, e)
+			}
+		}
 		resp, e := vfInvoke(conn, dc, &adminservice.DescribeClusterRequest{}, nil)
 		if e != nil {
 			return fmt.Errorf("HARNESS: DescribeCluster via %s failed: %v", side, e)
